@@ -16,8 +16,8 @@ interpolated table sample `S` at the phase position (`C01.tick_value`).
   output: same bound.
 * Part 2, `C03Boundary.lean`: `boundary_step` — the tick that rolls over into the next phase (attack → decay,
   decay → sustain, release → rest): same bound.
-Sustain-level changes between two ticks are covered by the oracle on the implementation only (the bound then has the
-extra term "the change the caller made", which follows from `blend_lipschitz` in the level argument; not included).
+* Part 3, `C03Sustain.lean`: `sustain_change_step` — a sustain level changed between two ticks of the decay adds at
+  most the caller's change to the bound.
 -/
 namespace C03
 open F32 AdsrTab C01
